@@ -52,6 +52,9 @@ M = [
     ("c07_batch_size_off_by_one", "C07", "jade/hpc/hpc_submitter.py",
      "elif self.num_jobs >= self._per_node_batch_size:",
      "elif self.num_jobs > self._per_node_batch_size:", 1200),
+    ("c07_dryrun_submits", "C07", "jade/hpc/hpc_manager.py",
+     "        if dry_run:\n            logger.info(\"Dry run mode enabled. Return without submitting.\")\n            return 0, Status.GOOD\n",
+     "        if dry_run and wait:\n            logger.info(\"Dry run mode enabled. Return without submitting.\")\n            return 0, Status.GOOD\n", 1600),
     ("c09_no_blocked_clear", "C09", "jade/jobs/cluster.py",
      "            if job.blocked_by and job.state in (JobState.SUBMITTED, JobState.DONE):\n",
      "            if False and job.blocked_by and job.state in (JobState.SUBMITTED, JobState.DONE):\n", 2400),
